@@ -68,8 +68,9 @@ def run(tier):
     scs = []
     for i in range(nsc):
         n = rnd.randrange(1, MAXS + 1)
-        msgs = [rnd.choice([0, 1, 2, 3, 5, 8]) for _ in range(n)]
-        scs.append({"id": i, "seed": rnd.randrange(1 << 30), "msgs": msgs, "pre": [rnd.randrange(0, m + 1) for m in msgs],
+        msgs = [rnd.choice([0, 1, 2, 3, 5, 8, 8, 40, 50]) for _ in range(n)]
+        scs.append({"id": i, "seed": rnd.randrange(1 << 30), "msgs": msgs,
+                    "pre": [rnd.choice([0, m, rnd.randrange(0, m + 1)]) for m in msgs],
                     "consumer": [rnd.choice(["block_on", "manual", "manual", "pool"]) for _ in range(n)]})
     validated = 0
     B = 100 if tier == "quick" else 250
